@@ -401,6 +401,24 @@ pub fn gen_stdin(rng: &mut Rng, max_chars: usize) -> Vec<u8> {
             }
         }
     }
+    if rng.chance(6) {
+        // a dictionary string at the start, at the end, on a line of its own or in the middle
+        let m = magic(rng);
+        match rng.below(4) {
+            0 => s.insert_str(0, m),
+            1 => s.push_str(m),
+            2 => {
+                s.push('\n');
+                s.push_str(m);
+                s.push('\n');
+            }
+            _ => {
+                let cs: Vec<char> = s.chars().collect();
+                let at = rng.usize(0, cs.len());
+                s = cs[..at].iter().collect::<String>() + m + &cs[at..].iter().collect::<String>();
+            }
+        }
+    }
     s.into_bytes()
 }
 
@@ -827,4 +845,15 @@ fn goto_forward_jump(rng: &mut Rng) -> Vec<Cmd> {
         v.push(Cmd::new(1, 1, rng.usize(4, 7), RArea::Nil));
     }
     v
+}
+
+/// Strings with a history of special treatment by terminals, shells, editors and this tool's own
+/// vocabulary (dictionary for input generation).
+pub const MAGIC: [&str; 24] = [
+    "\u{1b}[200~", "\u{1b}[201~", "\u{1b}[A", "\u{1b}[0m", "\u{1b}", "\u{1a}", "\u{4}", "\u{FEFF}", "\r\n", "\r", "\u{0}", "\u{7f}",
+    "exit", "clear", "help", "흑.하앙...", "너무 커엇...", "[stdout] ", "[stderr] ", "==> ", "> ", "\\n", "{}", "%s",
+];
+
+pub fn magic(rng: &mut Rng) -> &'static str {
+    MAGIC[rng.below(MAGIC.len() as u64) as usize]
 }
